@@ -536,6 +536,15 @@ def gen_xlcorpus(outdir, seed, count):
     for i in range(6):
         m.func([I32], [I32], [("loop",), ("local.get", 0), ("br_if", 0), "end", ("i32.const", i)])
     emit("m904", m)
+    # deeper still (what a compiler emits for a very large switch), between shallow functions so that -f hands it to a worker thread
+    m = Module(); m.memory(1)
+    for depth in (2500, 5000):
+        for i in range(3):
+            m.func([I32], [I32], [("local.get", 0), ("i32.const", depth + i), "i32.xor"])
+        body = [("block",)] * depth + [("local.get", 0), ("br_if", depth - 1), ("local.get", 0), ("br_if", 0)] + ["end"] * depth + [("local.get", 0)]
+        m.func([I32], [I32], body, export="deep%d" % depth)
+    m.func([I32], [I32], [("local.get", 0)])
+    emit("m906", m)
     # pinned module (sweep list of C10 only): nesting deep enough to exhaust any ordinary thread stack - the code generator recurses
     # once per nesting level (reproduces a recorded finding in every run)
     m = Module(); m.memory(1)
